@@ -19,11 +19,11 @@ def run_one(seed, preset=None, tier="quick", want_case=False):
     # resolver-heavy or default-resolver-heavy schemas, deeper or wider documents)
     def schema_knobs(t):
         return {"root_default_impl": t.chance(30), "default_impl_pct": t.choose([30, 10, 60]), "max_objects": t.choose([5, 3, 6]),
-                "mutation_pct": 35}
+                "mutation_pct": 35, "lag_pct": t.choose([0, 0, 0, 20])}
 
     def doc_knobs(t):
         return {"max_depth": t.choose([4, 3, 5]), "max_sel": t.choose([5, 3, 6]), "frag_pct": t.choose([18, 30, 8]),
-                "var_pct": t.choose([25, 45, 10]), "skip_pct": t.choose([12, 25])}
+                "var_pct": t.choose([25, 45, 10, 0]), "skip_pct": t.choose([12, 25]), "directive_vars": t.chance(70)}
 
     r = run_single(ID, seed, preset, want_case, schema_knobs=schema_knobs, doc_knobs=doc_knobs)
     plan, case, out = r["_plan"], r["_case"], r["_out"]
